@@ -367,9 +367,10 @@ def main(argv=None) -> int:
                     raise
                 except Exception:
                     ctx.notes.append("search crashed: " + traceback.format_exc()[-1500:])
-            if found:
-                violations += found
-            else:
+            open_keys = {k["key"] for k in load_known() if k.get("property") == prop and k.get("status", "open") == "open"}
+            fresh = [v for v in found if v.key not in open_keys]
+            violations += found
+            if not fresh:  # nothing new explains the broken obligation: it stays reported
                 violations.append(Violation(
                     key="unproved:" + ",".join(sorted({b.name for b in broken}))[:300],
                     what="proof obligation / correspondence no longer checks: " + "; ".join(f"{b.kind}:{b.name}" for b in broken[:6]),
